@@ -178,6 +178,17 @@ CHECKS = {
              "copysign, min, max, clamp, isnan, arc* are bit-compared with the std function on the operands in the required unit.",
         note="Tolerance 2^(5-p) + 2^-40.  The cmath wrappers are decided by raw-twin comparison (the specification contributes the argument conversion).",
         technique="TLA+ lemma checked by TLC + trace validation of rounding/inversion/angle records by TLC (BigInt, pi enclosure) + probes + raw twins", ref="6/C15"),
+    "C12": dict(
+        text="NumberTheory.tla models add_mod, sub_mod, the recursive mul_mod, half_mod_odd, pow_mod, miller_rabin(2), the Jacobi symbol, the strong "
+             "Lucas test and baillie_psw on a W-bit word with every operation wrap-checked; TLC visits every (a, b, n), a, b < n < 2^W for the "
+             "helpers (exact residue, no wrap) and every n < 2^W for primality against trial division.  For the real 64-bit code: every n below "
+             "2^20 (2^26 thorough) against a sieve with sampled records judged by TLC; ~250-700 adversarial numbers from an independent generator "
+             "whose factorisations TLC re-multiplies and re-certifies (trial division / deterministic 12-base Miller-Rabin over BigInt) before "
+             "judging is_prime and find_prime_factor; random helper operands incl. moduli above 2^63 judged through a*b = q*n + r with the "
+             "unsigned-wrap sanitizer flag and a per-call watchdog; mag<a>() * mag<b>() == mag<a*b>() assertions.",
+        note="Baillie-PSW below 2^64 is enumerated and re-certified, not proved.  No source hooks were needed: the wrap-around observable is clang's "
+             "unsigned-integer-overflow instrumentation.  is_perfect_square is modelled by its meaning (its Newton iteration does not scale down).",
+        technique="TLA+ word-level model checked by TLC + sieve sweep + TLC-certified adversarial inputs and helper residues (BigInt)", ref="6/C12"),
 }
 
 
